@@ -453,8 +453,8 @@ func vAnyRunnableRepo(dump string) bool {
 		if !(strings.Contains(first, "[running") || strings.Contains(first, "[runnable") || strings.Contains(first, "[sleep") || strings.Contains(first, "[syscall")) {
 			continue
 		}
-		if strings.Contains(b, "vDump") {
-			continue
+		if strings.Contains(b, "vDump") || strings.Contains(b, "vFlowWait") {
+			continue // (a scripted device held back by the harness's flow control is waiting for the stalled consumer, not working)
 		}
 		if vTopRepoFrame(b) != "?" {
 			return true
